@@ -197,7 +197,7 @@ def gen_case(ctx, fmt=None):
         case['integer_charge'] = sel.get('pick', 0) % 3 == 0
     if rng.random() < 0.25:
         sel['names'] = True
-    if (fmt.startswith('rwms') or fmt in ('qtop_openqcd', 'qtop_sfqcd', 'energy')) and rng.random() < 0.3:
+    if (fmt.startswith('rwms') or fmt in ('qtop_openqcd', 'qtop_sfqcd', 'energy', 'ms5_xsf')) and rng.random() < 0.3:
         sel['files_order'] = rng.getrandbits(16)
     if fmt in ('sfcf_c', 'sfcf_o') and rng.random() < 0.5:
         sel['files'] = rng.getrandbits(16)
@@ -481,7 +481,13 @@ def read_and_expect(ctx, case, root, info):
         elif fmt == 'ms5_xsf':
             k2 = dict(kw)
             want = {r: list(reps[r]) for r in rs}
-            files_sorted = sorted(rs, key=lambda r: 'ensAr%d' % r)     # the reader sorts file names as strings
+            # per-replicum lists (idl, names) follow the order of the files: the replica-number order of the automatic scan, or the
+            # order of an explicit files= list
+            files_sorted = list(rs)
+            if case['sel'].get('files_order') is not None and len(rs) > 1:
+                _random.Random(case['sel']['files_order']).shuffle(files_sorted)
+                k2['files'] = [info['files'][r][0] for r in files_sorted]
+                ctx.count('explicit-files-in-caller-order')
             if 'idl' in case['sel']:
                 rg = _random.Random(case['sel']['idl'])
                 want = {r: sorted(rg.sample(reps[r], max(5, len(reps[r]) - 3))) for r in rs}
